@@ -57,6 +57,10 @@ struct OpSpec {
     ts: u64,
     actor: usize,
     bad_sig: bool,
+    /// the generator put an action into this op that every correct implementation rejects
+    must_fail: bool,
+    /// position of the deliberately failing action, if any
+    fail_at: Option<usize>,
     acts: Vec<Act>,
 }
 
@@ -141,7 +145,8 @@ fn gen_act(rng: &mut Rng, ops: &[OpSpec], parents: &[usize], actor: usize, fail:
                 5 if allow_thread => return Act::Redact { target: Target::Missing(rng.below(4)) },
                 6 if allow_thread => return Act::React { target: Target::Missing(rng.below(4)), reaction: rng.below(3), active: true },
                 7 if actor != 0 => return Act::Label(vec![40 + rng.below(5)]), // strangers may not label
-                8 if actor != 0 => return Act::Assign(vec![actor]),
+                // never a no-op: ordinary assignments have at most two assignees
+                8 if actor != 0 => return Act::Assign((0..N_ACTORS).collect()),
                 _ => continue,
             }
         }
@@ -170,7 +175,7 @@ fn gen_issue_history(rng: &mut Rng, n: usize) -> Vec<OpSpec> {
             if rng.chance(1, 4) {
                 acts.push(Act::Label(vec![rng.below(4)]));
             }
-            ops.push(OpSpec { parents: vec![], ts: 1000, actor: if rng.chance(2, 3) { 0 } else { rng.below(N_ACTORS as u64) as usize }, bad_sig: false, acts });
+            ops.push(OpSpec { parents: vec![], ts: 1000, actor: if rng.chance(2, 3) { 0 } else { rng.below(N_ACTORS as u64) as usize }, bad_sig: false, must_fail: false, fail_at: None, acts });
             if ops[0].actor != 0 {
                 ops[0].acts.truncate(2); // a stranger's root may not label
             }
@@ -207,7 +212,7 @@ fn gen_issue_history(rng: &mut Rng, n: usize) -> Vec<OpSpec> {
         }
         // strangers: their harmless-looking actions may be denied as well (edit title of someone else's issue);
         // that is fine, it is one more way to be rejected
-        ops.push(OpSpec { parents, ts: 1000 + rng.below(ts_span), actor, bad_sig: rng.chance(1, 12), acts });
+        ops.push(OpSpec { parents, ts: 1000 + rng.below(ts_span), actor, bad_sig: rng.chance(1, 12), must_fail: fail_at.is_some(), fail_at, acts });
     }
     ops
 }
@@ -408,6 +413,14 @@ fn stream_issue(run: &mut Run, w: &World) {
                 for (k, op) in ops.iter().enumerate() {
                     let direct = !kept.contains(&wr.oids[k]) && op.parents.iter().all(|p| kept.contains(&wr.oids[*p]));
                     if direct {
+                        if let Some(a) = op.fail_at {
+                            run.tally(&format!("rejected:action-{}-of-{}-fails", a + 1, op.acts.len()));
+                        }
+                        if k > 0 && dag_tips(&ops).contains(&k) {
+                            run.tally("rejected:at-a-tip");
+                        } else {
+                            run.tally("rejected:interior-with-dependents");
+                        }
                         run.tally(if op.bad_sig {
                             "rejected:bad-signature"
                         } else if op.acts.iter().any(|a| matches!(a, Act::Garbage)) {
@@ -417,6 +430,9 @@ fn stream_issue(run: &mut Run, w: &World) {
                         } else {
                             "rejected:single-action-op"
                         });
+                    }
+                    if op.must_fail && kept.contains(&wr.oids[k]) {
+                        run.fail(&id, "cob-failing-op-accepted", format!("op {k} contains an action that must be rejected (invalid title, empty/dangling comment, missing target, root redaction, unauthorised or undecodable action) but is part of the evaluated history"), input.clone());
                     }
                     if op.bad_sig && kept.contains(&wr.oids[k]) {
                         run.fail(&id, "cob-invalid-signature-accepted", format!("op {k} has an invalid signature but is part of the evaluated history"), input.clone());
@@ -613,7 +629,7 @@ fn stream_identity(run: &mut Run, w: &World) {
         let with_b = eval(&[a.id, b.id]);
         run.eval();
         let without_b = eval(&[a.id]);
-        eval(&[]);
+        let _ = eval(&[]);
         let view = |r: Result<Result<Option<cob::CollaborativeObject<Identity>>, cob::object::collaboration::error::Retrieve>, String>| match r {
             Ok(Ok(Some(co))) => {
                 let (nodes, _) = history_dump(&co.history);
